@@ -154,7 +154,8 @@ theorem walkWhere_snd_subset (dep : String) : ∀ (preds : List WherePred), ∀ 
 theorem depsWithGenerics_preds (g : Generics) (tg : TraitGenerics) :
     ∀ q ∈ (depsWithGenerics g tg).preds, q ∈ tg.preds ∨ q ∈ g.preds := by
   intro q hq
-  simpa [depsWithGenerics] using hq
+  simp only [depsWithGenerics, List.mem_append, List.mem_filter] at hq
+  exact hq.imp id And.left
 
 /-- result of the analysis on a type that is neither a reference nor parenthesised -/
 theorem extractDeps_core {g : Generics} {tg tg' : TraitGenerics} {deps : FnDeps} {ty : Ty}
@@ -223,7 +224,7 @@ theorem extractDeps_core {g : Generics} {tg tg' : TraitGenerics} {deps : FnDeps}
                 simp at hq
                 rcases hq with hq | hq
                 · exact Or.inl hq
-                · exact Or.inr (walkWhere_snd_subset f g.preds q hq)
+                · exact Or.inr (walkWhere_snd_subset f g.preds q hq.1)
         · have hn' : (n != 1) = true := by simpa using hn
           simp [hn'] at h
           obtain ⟨rfl, rfl⟩ := h
